@@ -178,6 +178,14 @@ def part_a(ctx, nsets):
     for i in range(nsets):
         roots, parsed, _ = dsdlgen.make_set(os.path.join(d, "dsdl"), "c11/%s/%d" % (ctx.seed, i), "hostile" if i % 3 else "codec", nroots=R.choice([1, 2, 3]),
                                             extents=False, docs=False)
+        # sibling namespaces whose names are textual prefixes of one another (nodq / nodq2 / nodq2x / nod), with deeper levels below some
+        r0 = os.path.join(d, "dsdl", roots[0])
+        for sub, name in (("nodq", "Pq"), ("nodq2", "Qq"), (os.path.join("nodq2x", "deepq"), "Rq"), ("nod", "Sq"), (os.path.join("nodq", "nodq"), "Tq"),
+                          (os.path.join("nodq2", "innerq"), "Uq")):
+            os.makedirs(os.path.join(r0, sub), exist_ok=True)
+            with open(os.path.join(r0, sub, name + ".1.0.dsdl"), "w") as f:
+                f.write("uint8 v\n@sealed\n")
+        parsed = dsdlgen.read_all(os.path.join(d, "dsdl"), roots)
         for root in roots:
             types = parsed[root]
             for variant in range(3):
